@@ -434,13 +434,21 @@ Proof.
   - intros H. apply Hall. apply (Permutation_in _ (Permutation_sym (sort_time_perm _))). exact H.
 Qed.
 
+Lemma NoDup_app_disjoint {A} (l1 l2 : list A) :
+  NoDup l1 -> NoDup l2 -> (forall x, In x l1 -> ~ In x l2) -> NoDup (l1 ++ l2).
+Proof.
+  induction l1 as [|a r IH]; intros H1 H2 Hd; [exact H2|]. inversion H1; subst. cbn. constructor.
+  - intros Hin. apply in_app_or in Hin. destruct Hin as [Hin|Hin]; [contradiction|]. exact (Hd a (or_introl eq_refl) Hin).
+  - apply IH; [assumption|assumption|]. intros x Hx. apply Hd. right. exact Hx.
+Qed.
+
 Lemma NoDup_concat_disjoint {A} (ls : list (list A)) :
   Forall (@NoDup A) ls ->
   ForallOrdPairs (fun a b => forall x, In x a -> ~ In x b) ls -> NoDup (concat ls).
 Proof.
   induction ls as [|l r IH]; intros Hn Hd; [constructor|].
   inversion Hn; subst. inversion Hd as [|? ? Hl Hr]; subst. cbn.
-  apply NoDup_app_intro; [assumption|apply IH; assumption|].
+  apply NoDup_app_disjoint; [assumption|apply IH; assumption|].
   intros x Hx Hc. apply in_concat in Hc. destruct Hc as [l' [Hl' Hx']].
   rewrite Forall_forall in Hl. exact (Hl l' Hl' x Hx Hx').
 Qed.
